@@ -118,6 +118,19 @@ func sortOrder(keys []string) search.SortOrder {
 	return so
 }
 
+// AfterKeys turns the sort keys of a hit into the form SearchAfter / SearchBefore expect: keys of explicitly typed
+// number / date fields come back prefix-coded and have to be handed in decoded.
+func (r Req) AfterKeys(hitSort []string) []string {
+	so := sortOrder(r.Sort)
+	out := append([]string(nil), hitSort...)
+	for i, ss := range so {
+		if sf, ok := ss.(*search.SortField); ok && i < len(out) && (sf.Type == search.SortFieldAsNumber || sf.Type == search.SortFieldAsDate) {
+			out[i] = sf.DecodeValue(out[i])
+		}
+	}
+	return out
+}
+
 // Bleve builds the search request.
 func (r Req) Bleve() *bleve.SearchRequest {
 	req := bleve.NewSearchRequestOptions(r.Q.Bleve(), r.Size, r.From, false)
